@@ -48,6 +48,16 @@ THEOREMS = [P + n for n in (
     'normalised_unit_norm', 'normalise_pos_scale', 'score_scale_invariant',
     'subsample_length', 'subsample_uses_selected_only', 'fit_uses_selected_only',
     'subsample_multiplicity', 'selection_sorted', 'selection_perm',
+    # round 3
+    'nnls_exit_is_kkt', 'nnls_result_feasible', 'nnls_inner_terminates',
+    'fit_regress_nn_maximises', 'fit_regress_nn_maximises_cosine',
+    'pool_corr_is_pool', 'pool_cosine_cov_is_pool', 'pool_corr_cov_is_pool',
+    'ols_maximises_whitened_corr', 'ols_maximises_corr_coded',
+    'loss_is_minus_score', 'loss_value_spec', 'optimize_minimiser_maximises', 'optimize_positive_minimiser_maximises',
+    'optimize_picks_least_loss', 'fit_optimize_maximises',
+    'interpolate_assembly_matches_objective', 'interpolate_segments', 'leaf_norm_entries_agree',
+    'leaf_nnls_tests', 'leaf_nnls_bounds', 'leaf_nnls_step',
+    'interpolate_predict_rdm_clamps', 'interpolate_default_spec', 'default_fitter_dispatch',
 )]
 RULE = ('one PRNG; kind fit: 2-4 basis RDMs x 4-7 conditions (small integers, scaled by 1/10/100, '
         'full rank on the selected entries), 1-4 training RDMs (signal = non-negative mixture of the '
@@ -70,12 +80,21 @@ BRANCHES = (['method:' + m for m in METHODS] + ['fitter:' + f for f in FITTERS] 
              'nn:interior', 'noninterference', 'kind:predict', 'kind:nnls', 'kind:subsample',
              'class:fixed', 'class:select', 'class:weighted', 'class:interpolate',
              'theta:none', 'theta:negative', 'form:rdms', 'form:vectors', 'form:matrices',
-             'nnls:V'])
+             'nnls:V'] + ['family:' + f_ for f_ in
+                          ('nested', 'collinear', 'dup', 'zero', 'const', 'basis_is_data')] +
+            ['gram:singular:nn', 'gram:singular:ols', 'nn:multi_drop',
+             'nnls:dup', 'nnls:nested', 'nnls:multi_drop',
+             'route:Model.fit:optimize', 'route:Model.fit:select', 'route:Model.fit:interpolate',
+             'objective:optimize', 'objective:optimize_positive', 'select:undefined_candidate',
+             'family:anti', 'route:Fitter', 'malformed:method', 'nn:all_zero'])
 ASSUMPTIONS = [
     'IEEE evaluation of either side is within the stated tolerance of the real value (small integer '
     'inputs, n <= 7, well-conditioned sigma_k, Gram matrices of full rank with cond < 1e4)',
     'np.linalg.solve / scipy.sparse.linalg.cg return solutions of their linear systems (cg to its '
     'rtol 1e-5): theta is compared with tolerance 1e-6 (plain) / 5e-4 (whitened), scores one-sidedly',
+    'fit_optimize is judged only where the optimal weights are non-negative (BFGS starts in the positive orthant; '
+    'elsewhere it runs off along the scale direction); the optimisers are not judged where the guarded optimum is the '
+    'zero prediction',
     'BFGS (fit_optimize*) and the bounded scalar search (fit_interpolate) are observed, not modelled: '
     'their result must never beat the proven optimum and must reach it within 1e-5 (BFGS, no '
     'sigma_k), 0.3 (BFGS with sigma_k: the loss then carries conjugate-gradient noise) or 2e-5 '
@@ -90,7 +109,7 @@ TRUSTED_EXTRA = [
     'that segment (hypothesis of interpolate_best_of_segments; checked one-sidedly against a grid)',
 ]
 
-EPS = 100 * np.finfo(float).eps
+EPS = float(np.finfo(float).eps)      # the model forms 100 * eps * max|c| (leaf nnlsTol)
 TIMEOUT_S = 1.0
 
 _fit = importlib.import_module('rsatoolbox.model.fitter')
@@ -206,7 +225,39 @@ def _model_obj(case, basis_rows):
     return cls('m', _rdms(case, _apply_common_nan(case, basis_rows)))
 
 
-def _call_fit(case, basis_rows, data_rows, seed=0):
+def _loss_points(case):
+    """points at which the objective handed to scipy is compared with the model's"""
+    rng = random.Random(case['cseed'] + 17)
+    k = len(case['basis'])
+    pts = [[rng.choice([-1.5, -0.5, 0.25, 0.5, 1.0, 2.0]) for _ in range(k)] for _ in range(3)]
+    return pts, 0.0 if rng.random() < 0.5 else rng.choice([0.5, 2.0])
+
+
+def _lib_losses(case):
+    """values of the closure `_loss_opt` of fit_optimize / fit_optimize_positive (rebuilt here
+    from the library's `_loss`, with the reparametrisation the fitter's source applies)"""
+    model = _model_obj(case, _rows(case['basis']))
+    full = _rdms(case, _apply_common_nan(case, _rows(case['data'])))
+    kw = {}
+    data = full
+    if case['value'] is not None:
+        data = full.subsample_pattern(_by(case), np.array(case['value']))
+        kw = {'pattern_idx': np.array(case['value']), 'pattern_descriptor': _by(case)}
+    pts, ridge = _loss_points(case)
+    positive = case['fitter'] == 'optimize_positive'
+
+    def one(t):
+        th = np.array(t, dtype=float)
+        return float(_fit._loss(th ** 2 if positive else th, model, data, method=case['method'],
+                                sigma_k=_sigma_np(case['sigma']), ridge_weight=ridge, **kw))
+    out = []
+    for t in pts:
+        v = _guarded(lambda: one(t))
+        out.append(None if isinstance(v, dict) or math.isnan(v) else v)
+    return out
+
+
+def _call_fit(case, basis_rows, data_rows, seed=0, via_fit=False):
     """the real fitter call; returns theta as list / int or {'exc': ...}"""
     from rsatoolbox.rdm import RDMs
     model = _model_obj(case, basis_rows)
@@ -230,7 +281,17 @@ def _call_fit(case, basis_rows, data_rows, seed=0):
     np.random.seed(seed)
 
     def go():
-        th = f(model, data, method=case['method'], sigma_k=_sigma_np(case['sigma']), **kw)
+        if via_fit:
+            kw2 = {k_: v_ for k_, v_ in kw.items() if k_ != 'normalize'}
+            th = model.fit(data, method=case['method'], sigma_k=_sigma_np(case['sigma']), **kw2)
+        elif case.get('via') == 'Fitter':
+            settings = {k_: v_ for k_, v_ in kw.items() if k_ in ('normalize',)}
+            settings['sigma_k'] = _sigma_np(case['sigma'])
+            rest = {k_: v_ for k_, v_ in kw.items() if k_ not in settings}
+            th = _fit.Fitter(f, **settings)(model, data, method=case.get('bad_method') or case['method'], **rest)
+        else:
+            th = f(model, data, method=case.get('bad_method') or case['method'],
+                   sigma_k=_sigma_np(case['sigma']), **kw)
         if case['fitter'] == 'select':
             return int(th)
         return [float(v) for v in np.asarray(th, dtype=float).reshape(-1)]
@@ -297,13 +358,72 @@ def _selection(rng, n, desc, by, style):
             return v
 
 
-def _fit_case(rng, fitter, method, tier, small=False, malformed=False):
-    for _attempt in range(200):
+FAMILIES = ['nested', 'collinear', 'dup', 'zero', 'const', 'basis_is_data', 'anti']
+
+
+def _family_rows(rng, family, k, m, r, positive_signal=False):
+    """structured basis sets (small integers, so linear dependencies are exact):
+      nested        one RDM = 3/10 * (sum of the others) + a small part of its own, data explained by
+                    that RDM minus a bit of the others (the active-set solver takes the others in
+                    first and must then drop several of them in one go); full rank, ill-conditioned
+      collinear     one RDM = 3/10 * (sum of the others) exactly (Gram matrix of rank k-1)
+      dup           one RDM occurs twice
+      zero          one RDM is all zero
+      const         one RDM is constant (= zero for the correlation criteria)
+      basis_is_data the training RDMs are the basis RDMs themselves
+    """
+    parts = [[rng.randint(0, 5) for _ in range(m)] for _ in range(k - 1)]
+    tot = [sum(p[e] for p in parts) for e in range(m)]
+    own = [rng.randint(0, 2) for _ in range(m)]
+    pos = rng.randrange(k)
+    if family == 'nested':
+        basis = [[10 * v for v in p] for p in parts]
+        c = [3 * tot[e] + 2 * own[e] for e in range(m)]
+        basis.insert(pos, c)
+        p_, q_ = rng.choice([(10, 9), (10, 9), (8, 6), (12, 10), (10, 3)])
+        data = [[p_ * c[e] - q_ * tot[e] + rng.randint(0, 1) for e in range(m)] for _ in range(r)]
+        return basis, data
+    if family == 'collinear':
+        basis = [[10 * v for v in p] for p in parts]
+        basis.insert(pos, [3 * v for v in tot])
+    elif family == 'dup':
+        basis = [list(p) for p in parts]
+        basis.insert(pos, list(parts[rng.randrange(k - 1)]))
+    elif family == 'zero':
+        basis = [list(p) for p in parts]
+        basis.insert(pos, [0] * m)
+    elif family == 'const':
+        basis = [list(p) for p in parts]
+        basis.insert(pos, [rng.randint(1, 3)] * m)
+    elif family == 'anti':
+        # every basis RDM is negatively correlated with the data: the non-negative optimum is theta = 0
+        basis = [list(p) for p in parts] + [[rng.randint(0, 5) for _ in range(m)]]
+        tot2 = [sum(b[e] for b in basis) for e in range(m)]
+        data = [[6 * k + 3 - 2 * tot2[e] + rng.randint(0, 1) for e in range(m)] for _ in range(r)]
+        return basis, data
+    else:   # basis_is_data
+        basis = [list(p) for p in parts] + [[rng.randint(0, 5) for _ in range(m)]]
+        return basis, [list(b) for b in basis][:max(1, min(r, k))]
+    th = [rng.choice([0, 1, 1, 2, 3]) for _ in range(k)]
+    if rng.random() < 0.3 and not positive_signal:
+        th = [rng.choice([-2, -1, 1, 2, 3]) for _ in range(k)]
+    if sum(abs(t) for t in th) == 0:
+        th[0] = 1
+    data = [[sum(th[i] * basis[i][e] for i in range(k)) + rng.randint(-2, 2) + 6 for e in range(m)]
+            for _ in range(r)]
+    return basis, data
+
+
+def _fit_case(rng, fitter, method, tier, small=False, malformed=False, family=None, multi_drop=False,
+              via_fit=False, undefined_candidate=False):
+    for _attempt in range(400):
         n = rng.randint(4, 5 if small else (6 if tier == 'quick' else 7))
         m = n * (n - 1) // 2
         k = rng.randint(2, 3 if small else 4)
         if fitter == 'interpolate':
             k = rng.randint(2, 4)
+        if family is not None:
+            k = rng.randint(3, 5 if family == 'nested' and not small else 4)
         by = rng.choice(['index', 'cond', 'cond'])
         desc = rng.sample(range(1, 3 * n), n)
         if by == 'cond' and rng.random() < 0.15:
@@ -316,7 +436,13 @@ def _fit_case(rng, fitter, method, tier, small=False, malformed=False):
         if fitter in ('optimize', 'optimize_positive', 'interpolate', 'select'):
             dstyle = 'signal'
         r = rng.choice([1, 2, 2, 3, 4])
-        if dstyle == 'signal':
+        if family is not None:
+            scale = 1
+            dstyle = 'family'
+            # the optimisers (and the scalar search) are observed on data with a positive optimum only
+            basis, data = _family_rows(rng, family, k, m, r,
+                                       positive_signal=fitter in ('optimize', 'optimize_positive', 'interpolate'))
+        elif dstyle == 'signal':
             th = [rng.choice([0, 1, 1, 2, 3]) for _ in range(k)]
             if fitter == 'interpolate':
                 i = rng.randrange(k - 1)
@@ -344,14 +470,30 @@ def _fit_case(rng, fitter, method, tier, small=False, malformed=False):
                 'value': value, 'basis': basis, 'data': data, 'sigma': None,
                 'normalize': rng.random() < 0.6, 'scale': scale, 'dstyle': dstyle,
                 'common_nan': None, 'malformed': False, 'cseed': rng.randint(0, 10 ** 6)}
+        if family is not None:
+            case['family'] = family
+        if via_fit:
+            # the public route: Model.fit -> default fitter of the class (normalize at its default)
+            case['via'] = 'fit'
+            case['normalize'] = True
+        elif fitter in ('regress', 'regress_nn') and rng.random() < 0.25:
+            # the public route: a Fitter object carrying the settings
+            case['via'] = 'Fitter'
         nsub = len(orc.positions(_desc_for(case), value))
         if method.endswith('_cov'):
             case['sigma'] = _sigma(rng, nsub, rng.choice(['none', 'vec', 'mat', 'mat']))
+            if undefined_candidate:
+                # with a given sigma_k the whitened similarity of a zero vector is 0/0 in the library
+                case['sigma'] = _sigma(rng, nsub, rng.choice(['vec', 'mat']))
         if rng.random() < 0.12:
             case['common_nan'] = rng.randrange(m)
         if malformed:
             case['malformed'] = True
         if _well_posed(case):
+            if multi_drop and _structure(case)['maxdrop'] < 2:
+                continue        # wanted: several coefficients leave the passive set in one go
+            if family == 'anti' and float(np.max(_problem(case).best_nonneg()[0])) > 0:
+                continue        # wanted: the constrained optimum is theta = 0
             return case
     raise RuntimeError('no well-posed case found')
 
@@ -361,6 +503,39 @@ def _problem(case, basis_rows=None, data_rows=None):
     d = _apply_common_nan(case, _rows(case['data']) if data_rows is None else data_rows)
     return orc.Problem(case['n'], _desc_for(case), case['value'], b,
                        _data_sub_py(case, d), case['method'], _sigma_np(case['sigma']))
+
+
+_STRUCT_CACHE = {}
+
+
+def _structure(case, pr=None):
+    """rank structure of the training problem on the selected, commonly present entries:
+    a maximal independent subset of the basis RDMs (in the criterion's inner product, i.e.
+    after mean removal for the correlation criteria), whether the weights are (numerically)
+    not unique, and the largest number of coefficients the active-set method has to drop in
+    one outer iteration (own replica of the method, used for coverage tags only)"""
+    key = _key(dict(case, malformed=False))
+    if key in _STRUCT_CACHE:
+        return _STRUCT_CACHE[key]
+    if pr is None:
+        pr = _problem(dict(case, malformed=False))
+    out = {'indep': list(range(len(case['basis']))), 'degenerate': False, 'rank_deficient': False,
+           'maxdrop': 0, 'cond': 1.0}
+    if pr.masks_agree and pr.data_ok:
+        g = pr.A @ pr.W @ pr.A.T
+        sc = max(float(np.max(np.abs(np.diag(g)))), 1e-300)
+        keep = []
+        for i in range(g.shape[0]):
+            sub = g[np.ix_(keep + [i], keep + [i])]
+            if g[i, i] > 1e-12 * sc and np.linalg.matrix_rank(sub, tol=1e-9 * sc) == len(keep) + 1:
+                keep.append(i)
+        out['indep'] = keep
+        out['rank_deficient'] = len(keep) < g.shape[0]
+        out['cond'] = float(np.linalg.cond(g[np.ix_(keep, keep)])) if keep else 1.0
+        out['degenerate'] = out['rank_deficient'] or out['cond'] > 1e4
+        out['maxdrop'] = orc.active_set_maxdrop(g, pr.A @ pr.W @ pr.t)
+    _STRUCT_CACHE[key] = out
+    return out
 
 
 def _well_posed(case):
@@ -375,11 +550,22 @@ def _well_posed(case):
     if pr.A.shape[1] < pr.A.shape[0] + 2:
         return False
     g = pr.A @ pr.W @ pr.A.T
-    if np.linalg.matrix_rank(g) < g.shape[0] or np.linalg.cond(g) > 1e4:
-        return False
+    if case.get('family') is None:
+        if np.linalg.matrix_rank(g) < g.shape[0] or np.linalg.cond(g) > 1e4:
+            return False
+    else:
+        # structured families: the Gram matrix may be singular / ill-conditioned; the
+        # independent part must still be a decent problem of at least two RDMs
+        st = _structure(case, pr)
+        if len(st['indep']) < 2 or st['cond'] > 1e7:
+            return False
+        if case['family'] in ('collinear', 'dup', 'zero') and not st['rank_deficient']:
+            return False
+        if case['family'] == 'const' and case['method'].startswith('corr') and not st['rank_deficient']:
+            return False
     if case['fitter'] in ('select', 'interpolate', 'optimize', 'optimize_positive'):
         # a clear winner: the optimum must not be a near-tie (arg-max / optimiser stability)
-        if case['fitter'] == 'select':
+        if case['fitter'] == 'select' and case.get('family') is None:
             ev = sorted(pr.best_single())
             if ev[-1] - ev[-2] < 1e-6:
                 return False
@@ -414,14 +600,29 @@ def _predict_case(rng, tier):
             'params': params, 'lin': None}
 
 
-def _nnls_case(rng, tier):
+def _nnls_case(rng, tier, want_multi_drop=False):
     while True:
+        if want_multi_drop:
+            c = _nnls_case(rng, tier)
+            if c.get('style') != 'nested' or c['sigma'] is not None:
+                continue
+            a_ = np.array(_rows(c['rows']), dtype=float)
+            y_ = np.array([_fl(v) for v in c['y']], dtype=float)
+            if orc.active_set_maxdrop(a_ @ a_.T, a_ @ y_) >= 2:
+                return c
+            continue
         k = rng.randint(2, 4)
         n = rng.randint(4, 5)
         m = n * (n - 1) // 2
         rows = [[rng.randint(-2, 5) for _ in range(m)] for _ in range(k)]
-        style = rng.choice(['noise', 'mix', 'neg'])
-        if style == 'noise':
+        style = rng.choice(['noise', 'mix', 'neg', 'nested', 'dup'])
+        if style == 'nested' and k >= 3:
+            rows, ys = _family_rows(rng, 'nested', k, m, 1)
+            y = ys[0]
+        elif style == 'dup':
+            rows[rng.randrange(1, k)] = list(rows[0])
+            y = [rows[0][e] + rng.randint(-1, 2) for e in range(m)]
+        elif style == 'noise':
             y = [rng.randint(-2, 5) for _ in range(m)]
         elif style == 'mix':
             th = [rng.choice([0, 1, 2]) for _ in range(k)]
@@ -430,8 +631,9 @@ def _nnls_case(rng, tier):
             y = [-rng.randint(0, 4) for _ in range(m)]
         sig = _sigma(rng, n, rng.choice(['none', 'none', 'mat', 'vec']))
         a = np.array(rows, dtype=float)
-        if np.linalg.matrix_rank(a) == k and np.linalg.cond(a @ a.T) < 1e4:
-            return {'kind': 'nnls', 'n': n, 'rows': rows, 'y': y, 'sigma': sig}
+        if style == 'dup' or (np.linalg.matrix_rank(a) == k and
+                              np.linalg.cond(a @ a.T) < (1e7 if style == 'nested' else 1e4)):
+            return {'kind': 'nnls', 'n': n, 'rows': rows, 'y': y, 'sigma': sig, 'style': style}
 
 
 def _subsample_case(rng, tier):
@@ -449,22 +651,49 @@ def _subsample_case(rng, tier):
             'v': [100 + e for e in range(m)]}
 
 
+FAMILY_PLAN = [            # (fitter, family, repetitions in the quick tier)
+    ('regress_nn', 'nested', 6), ('regress_nn', 'collinear', 3), ('regress_nn', 'dup', 3),
+    ('regress_nn', 'zero', 2), ('regress_nn', 'const', 2), ('regress_nn', 'basis_is_data', 2),
+    ('regress_nn', 'anti', 2), ('regress', 'nested', 2), ('regress', 'collinear', 2), ('regress', 'dup', 2), ('regress', 'zero', 2),
+    ('regress', 'const', 2), ('regress', 'basis_is_data', 2),
+    ('select', 'dup', 1), ('select', 'zero', 3), ('select', 'const', 2),
+    ('interpolate', 'dup', 1), ('interpolate', 'zero', 1),
+    ('interpolate', 'const', 1), ('optimize_positive', 'dup', 1), ('optimize', 'zero', 1),
+]
+
+
 def generate(rng, tier):
     quick = tier == 'quick'
     reps = {'regress': 8, 'regress_nn': 8, 'optimize': 2, 'optimize_positive': 2,
             'select': 3, 'interpolate': 3}
     mult = 1 if quick else 12
     for fitter in FITTERS:
-        for _ in range(reps[fitter] * mult):
+        for i in range(reps[fitter] * mult):
             for method in METHODS:
-                yield _fit_case(rng, fitter, method, tier)
+                yield _fit_case(rng, fitter, method, tier, via_fit=(fitter == 'optimize' and i % 2 == 1))
+    j = 0
+    for fitter, family, rep in FAMILY_PLAN:
+        for _ in range(rep * (1 if quick else 10)):
+            j += 1
+            und = fitter == 'select' and family in ('zero', 'const') and j % 2 == 0
+            if family == 'anti':
+                yield _fit_case(rng, fitter, ('corr', 'corr_cov')[j % 2], tier, family=family)
+                continue
+            yield _fit_case(rng, fitter, ('cosine_cov', 'corr_cov')[(j // 2) % 2] if und else METHODS[j % 4], tier,
+                            family=family, undefined_candidate=und,
+                            multi_drop=(fitter == 'regress_nn' and family == 'nested' and j % 3 != 0))
+    for k in range(2 if quick else 20):
+        # a criterion the regression fitters do not support (pool_rdm knows it): ValueError
+        c = _fit_case(rng, ('regress', 'regress_nn')[k % 2], 'cosine', tier)
+        c['bad_method'] = ('spearman', 'euclid', 'tau-a', 'rho-a')[k % 4]
+        yield c
     for k in range(3 if quick else 40):
         # malformed stream: a training RDM lacks an entry the model has
         yield _fit_case(rng, ('regress', 'regress_nn')[k % 2], METHODS[k % 4], tier, malformed=True)
     for _ in range(60 if quick else 1200):
         yield _predict_case(rng, tier)
-    for _ in range(60 if quick else 1500):
-        yield _nnls_case(rng, tier)
+    for i in range(60 if quick else 1500):
+        yield _nnls_case(rng, tier, want_multi_drop=(i % 20 == 0))
     for _ in range(40 if quick else 800):
         yield _subsample_case(rng, tier)
 
@@ -475,10 +704,11 @@ def search(rng, tier):
     while True:
         k += 1
         r = k % 10
+        fam = FAMILIES[(k // 10) % len(FAMILIES)] if (k // 5) % 2 else None
         if r < 3:
-            yield _fit_case(rng, 'regress', METHODS[k % 4], 'quick', small=k < 200)
+            yield _fit_case(rng, 'regress', METHODS[k % 4], 'quick', small=k < 200, family=fam)
         elif r < 6:
-            yield _fit_case(rng, 'regress_nn', METHODS[k % 4], 'quick', small=k < 200)
+            yield _fit_case(rng, 'regress_nn', METHODS[k % 4], 'quick', small=k < 200, family=fam)
         elif r == 6:
             yield _fit_case(rng, rng.choice(['select', 'interpolate']), METHODS[k % 4], 'quick', small=True)
         elif r == 7:
@@ -531,7 +761,12 @@ def _predict_impl(case):
     out = {'direct': [one(m1, p) for p in case['params']],
            'dict': m2 if isinstance(m2, dict) else [one(m2, p) for p in case['params']],
            'type': type(m1).__name__,
-           'type2': m2 if isinstance(m2, dict) else type(m2).__name__}
+           'type2': m2 if isinstance(m2, dict) else type(m2).__name__,
+           'default_fitter': getattr(m1.default_fitter, '__name__', str(m1.default_fitter)),
+           'default_fitter2': None if isinstance(m2, dict) else
+           getattr(m2.default_fitter, '__name__', str(m2.default_fitter)),
+           'n_param': int(m1.n_param),
+           'mock': _guarded(lambda: [float(v) for v in _fit.fit_mock(m1, None)])}
     return out
 
 
@@ -570,8 +805,14 @@ def run_impl(case):
     elif case['kind'] == 'subsample':
         out = _subsample_impl(case)
     else:
-        th, sc = _call_fit(case, _rows(case['basis']), _rows(case['data']))
+        th, sc = _call_fit(case, _rows(case['basis']), _rows(case['data']), via_fit=case.get('via') == 'fit')
         out = {'theta': th, 'lib_score': sc}
+        f_ = case['fitter']
+        if not isinstance(th, dict) and not case.get('malformed') and f_ in ('select', 'interpolate'):
+            # the public route Model.fit (default fitter of the class, arguments passed through)
+            out['theta_via_fit'] = _call_fit(case, _rows(case['basis']), _rows(case['data']), via_fit=True)[0]
+        if f_ in ('optimize', 'optimize_positive') and not isinstance(th, dict):
+            out['lib_loss'] = _lib_losses(case)
         if _has_unselected(case) and not isinstance(th, dict) and not case['fitter'].startswith('optimize'):
             th2, _ = _call_fit(case, _perturbed(case, _rows(case['basis']), 3.0),
                                _perturbed(case, _rows(case['data']), 5.0))
@@ -640,10 +881,18 @@ def model_requests(case):
     if case['kind'] == 'subsample':
         return [{'op': 'c08.subsample', 'n': case['n'], 'desc': _desc_for(case),
                  'value': case['value'], 'v': case['v']}]
+    if case.get('bad_method'):
+        return []
     impl = run_impl(case)
     base = _common_req(case)
     f = case['fitter']
-    reqs = [dict(base, op='c08.fit', fitter='regress', normalize=bool(case['normalize']))]
+    st = _structure(case)
+    breg = base
+    if st['rank_deficient']:
+        # the unconstrained optimum is computed on a maximal independent subset of the basis
+        # (same span, same maximal score; the model's Gauss-Jordan solve needs a regular Gram matrix)
+        breg = dict(base, basis=[base['basis'][i] for i in st['indep']])
+    reqs = [dict(breg, op='c08.fit', fitter='regress', normalize=bool(case['normalize']))]
     nonneg = f in ('regress_nn', 'optimize_positive', 'interpolate')
     if nonneg:
         reqs.append(dict(base, op='c08.fit', fitter='nn', normalize=bool(case['normalize']),
@@ -658,6 +907,10 @@ def model_requests(case):
         reqs.append(dict(base, op='c08.select'))
     if f == 'interpolate':
         reqs.append(dict(base, op='c08.interp', eps=fbits(EPS)))
+    if f in ('optimize', 'optimize_positive'):
+        pts, ridge = _loss_points(case)
+        reqs.append(dict(base, op='c08.loss', thetas=[[fbits(v) for v in t] for t in pts],
+                         ridge=fbits(ridge), positive=(f == 'optimize_positive')))
     return reqs
 
 
@@ -677,6 +930,9 @@ def model_result(case, answers):
     for a in answers:
         if isinstance(a, dict) and 'model_error' in a:
             return a
+    if case.get('bad_method'):
+        # Fit.Method has exactly the four criteria of the regression fitters: anything else is rejected
+        return {'regress': {'exc': 'ValueError'}}
     out = {}
     k = 0
     a = answers[k]
@@ -692,18 +948,29 @@ def model_result(case, answers):
     k += 1
     if f == 'select':
         a = answers[k]
-        out['select'] = {'evals': [_dec(v) for v in a['evals']], 'theta': a['theta']}
+        dfn = [v is not None for v in a['evals']]
+        ev = [0.0 if v is None else _dec(v) for v in a['evals']]   # zero prediction: similarity 0
+        th_ = a['theta']
+        if th_ is None:
+            th_ = max(range(len(ev)), key=lambda i: (ev[i], -i))
+        out['select'] = {'evals': ev, 'theta': th_, 'defined': dfn}
     if f == 'interpolate':
         a = answers[k]
         out['interp'] = a if isinstance(a, dict) else [{'w': _dec(s['w']), 'score': _dec(s['score'])} for s in a]
+    if f in ('optimize', 'optimize_positive'):
+        out['loss'] = [_dec(v) for v in answers[k]]
     return out
 
 
 # ------------------------------------------------------------------ comparison
 
 def _tol(case):
+    """tolerance of the comparison of theta *directions*.  Whitened criteria: the library solves
+    V x = b by conjugate gradients to a relative residual of 1e-5, an error the normal equations
+    amplify by the condition number of the Gram matrix (the *score* of the result is affected only
+    in second order and is compared with the tight slack)"""
     if case['method'].endswith('_cov'):
-        return 5e-4
+        return min(2e-2, 5e-4 * max(1.0, _structure(case)['cond'] / 300.0))
     return 1e-6
 
 
@@ -758,6 +1025,13 @@ def _cmp_predict(case, impl, model):
                 return f'{tag} pattern descriptors theta={p}: impl {da} != model {db}'
     if impl['type'] != model['type'] or impl['type2'] != model['type']:
         return f'type name {impl["type"]}/{impl["type2"]} != {model["type"]}'
+    if impl['default_fitter'] != model['default_fitter'] or impl['default_fitter2'] != model['default_fitter']:
+        return (f'default fitter {impl["default_fitter"]}/{impl["default_fitter2"]} != model '
+                f'{model["default_fitter"]}')
+    if impl['n_param'] != model['n_param']:
+        return f'n_param {impl["n_param"]} != model {model["n_param"]}'
+    if case['cls'] == 'fixed' and impl['mock'] != [float(unrat(v)) for v in model['mock']]:
+        return f'fit_mock {impl["mock"]} != model {model["mock"]}'
     return None
 
 
@@ -783,7 +1057,26 @@ def compare(case, impl, model):
             return 'model: result of the active-set loop violates the KKT conditions'
         if not all(model['kkt_impl']):
             return f'_nn_least_squares result {impl["x"]} violates the KKT conditions'
-        return _vec_diff(impl['x'], model['x'], 1e-7 if case['sigma'] is None else 5e-4)
+        if case.get('style') in ('dup', 'nested'):
+            return None      # minimiser not unique / ill-conditioned: the KKT conditions decide
+        if case['sigma'] is None:
+            return _vec_diff(impl['x'], model['x'], 1e-7)
+        # the library solves V x = b by conjugate gradients (rtol 1e-5); the normal equations amplify
+        # that error by the condition number of the Gram matrix (see _tol)
+        a_ = np.array(_rows(case['rows']), dtype=float)
+        w_ = np.linalg.inv(orc.v_matrix(case['n'], _sigma_np(case['sigma'])))
+        g_ = a_ @ w_ @ a_.T
+        cond = float(np.linalg.cond(g_))
+        tol = min(2e-2, 5e-4 * max(1.0, cond / 300.0))
+        # ... in absolute terms, relative to the natural size |y| / |a_i| of a coefficient: where the
+        # right-hand side a_i' V^-1 y is small by cancellation, the relative error of x_i is unbounded
+        y_ = np.array([_fl(v) for v in case['y']], dtype=float)
+        nat = math.sqrt(max(float(y_ @ w_ @ y_), 0.0)) / math.sqrt(max(float(np.min(np.diag(g_))), 1e-300))
+        big = max(max(abs(t) for t in impl['x']), max(abs(t) for t in model['x']), nat)
+        for i_, (u, v) in enumerate(zip(impl['x'], model['x'])):
+            if math.isnan(u) or math.isnan(v) or abs(u - v) > tol * big:
+                return f'[{i_}]: impl {u!r} != model {v!r} (all: {impl["x"]} vs {model["x"]})'
+        return None
     # ---- fit
     th = impl['theta']
     f = case['fitter']
@@ -795,9 +1088,11 @@ def compare(case, impl, model):
     if isinstance(th, dict):
         return f'{f}: implementation raised {th["exc"]}, model theta {mreg["theta"]}'
     tol = _tol(case)
-    slack = 1e-7 if tol < 1e-5 else 1e-6
+    slack = 1e-6 if case['method'].endswith('_cov') else 1e-7
     scores = model['scores']
     s_impl, comp = scores[0], scores[1:]
+    if s_impl is None and f == 'select':
+        s_impl = 0.0         # an all-zero candidate: similarity 0/0, judged below as 0
     if s_impl is None:
         if f in ('regress_nn', 'optimize_positive') and not any(th) and not any(model['nn']['theta']):
             return None      # every basis RDM is negatively related to the data: the optimum is theta = 0
@@ -810,12 +1105,23 @@ def compare(case, impl, model):
         s_opt = opt['score']
         if s_opt is None:
             s_opt = 0.0
-        if f in ('regress', 'regress_nn'):
-            # "up to scale": compare directions (both sides normalised to unit length)
+            if f.startswith('optimize') and not any(opt['theta']):
+                # no direction positively related to the data: the guarded optimum is the zero prediction
+                # (similarity 0/0); the optimisers are not judged there
+                return None if (not nonneg or min(th) >= -1e-12) else f'{f}: negative weight {min(th)!r}'
+        if f in ('regress', 'regress_nn') and not _structure(case)['degenerate']:
+            # "up to scale": compare directions (both sides normalised to unit length); where the
+            # maximiser is not unique (dependent / nearly dependent basis RDMs) only the score counts
             d = _vec_diff(_unit(th), _unit(opt['theta']), tol)
             if d:
                 return f'{f} theta (unit length) {d}'
-        if s_impl < s_opt - (slack if f in ('regress', 'regress_nn') else _opt_slack(case)):
+        judged = True
+        if f == 'optimize':
+            # BFGS starts in the positive orthant and is observed only where the optimum lies there too
+            # (elsewhere it is known to run off along the scale direction and stop anywhere - notes)
+            u = _unit(opt['theta'])
+            judged = min(u) >= -1e-3
+        if judged and s_impl < s_opt - (slack if f in ('regress', 'regress_nn') else _opt_slack(case)):
             return f'{f}: score {s_impl!r} of the returned theta is below the optimum {s_opt!r}'
         if s_impl > s_opt + slack:
             return f'{f}: score {s_impl!r} of the returned theta beats the model optimum {s_opt!r}'
@@ -830,8 +1136,12 @@ def compare(case, impl, model):
         ev = model['select']['evals']
         if model['select']['theta'] is None:
             return 'model: evaluations undefined'
-        if th != model['select']['theta'] and abs(ev[th] - max(ev)) > slack:
-            return f'select: index {th} (score {ev[th]!r}) != arg-max {model["select"]["theta"]} ({max(ev)!r})'
+        dfn = model['select']['defined']
+        # candidates of undefined similarity (0/0) may count as 0 or be passed over
+        rivals = [ev[i] for i in range(len(ev)) if dfn[i]] + ([0.0] if not dfn[th] else [])
+        top = max(rivals) if rivals else 0.0
+        if th != model['select']['theta'] and abs(ev[th] - top) > slack:
+            return f'select: index {th} (score {ev[th]!r}) != arg-max {model["select"]["theta"]} ({top!r})'
     elif f == 'interpolate':
         k = len(th)
         nz = [i for i, t in enumerate(th) if t != 0]
@@ -847,6 +1157,18 @@ def compare(case, impl, model):
             for c in comp:
                 if c is not None and c > best + slack:
                     return f'model: a mixture scores {c!r} above the model optimum {best!r}'
+    if 'theta_via_fit' in impl:
+        tv = impl['theta_via_fit']
+        same = (tv == th) if f == 'select' else (not isinstance(tv, dict) and _vec_diff(th, tv, 1e-12) is None)
+        if not same:
+            return f'{f}: Model.fit returns {tv}, the default fitter of the class returns {th}'
+    if impl.get('lib_loss') is not None and 'loss' in model:
+        for a_, b_ in zip(impl['lib_loss'], model['loss']):
+            if a_ is None:
+                continue
+            if b_ is None or math.isnan(b_) or not close(a_, b_, 1e-3 if case['sigma'] is not None else 1e-9,
+                                                            1e-3 if case['sigma'] is not None else 1e-9):
+                return f'{f}: objective handed to the optimiser {impl["lib_loss"]} != model {model["loss"]}'
     if impl['lib_score'] is not None and not close(impl['lib_score'], s_impl, 1e-3, 1e-3):
         return f'{f}: library score {impl["lib_score"]!r} != model score {s_impl!r} of the same theta'
     if 'theta_perturbed' in impl:
@@ -878,6 +1200,14 @@ def features(case, impl):
         br = ['kind:nnls'] + (['nnls:V'] if case['sigma'] is not None else [])
         if impl and 'x' in impl:
             br.append('nn:active_constraint' if any(t == 0 for t in impl['x']) else 'nn:interior')
+        if case.get('style') in ('dup', 'nested'):
+            br.append('nnls:' + case['style'])
+            a_ = np.array(_rows(case['rows']), dtype=float)
+            w_ = np.eye(a_.shape[1]) if case['sigma'] is None else \
+                np.linalg.inv(orc.v_matrix(case['n'], _sigma_np(case['sigma'])))
+            y_ = np.array([_fl(v) for v in case['y']], dtype=float)
+            if orc.active_set_maxdrop(a_ @ w_ @ a_.T, a_ @ w_ @ y_) >= 2:
+                br.append('nnls:multi_drop')
         return {'kind': kind, 'sigma': sigma_kind(case['sigma']), 'k': len(case['rows']),
                 'timeout': bool(impl and impl.get('exc') == 'Timeout'), 'branches': br}
     if kind == 'subsample':
@@ -906,7 +1236,36 @@ def features(case, impl):
         br.append('nn:active_constraint' if any(t == 0 for t in th) else 'nn:interior')
     if impl and 'theta_perturbed' in impl:
         br.append('noninterference')
-    return {'kind': kind, 'fitter': case['fitter'], 'method': case['method'],
+    if case.get('via') == 'fit' or (impl and 'theta_via_fit' in impl):
+        br.append('route:Model.fit:' + case['fitter'])
+    if case.get('via') == 'Fitter':
+        br.append('route:Fitter')
+    if case.get('bad_method'):
+        br.append('malformed:method')
+    if case['fitter'] == 'regress_nn' and isinstance(impl.get('theta') if impl else None, list) \
+            and not any(impl['theta']):
+        br.append('nn:all_zero')
+    if impl and impl.get('lib_loss') is not None:
+        br.append('objective:' + case['fitter'])
+    st = _structure(case) if not case.get('malformed') else {'rank_deficient': False, 'maxdrop': 0,
+                                                             'degenerate': False}
+    fam = case.get('family')
+    if fam:
+        br.append('family:' + fam)
+    if st['rank_deficient']:
+        br.append('gram:singular:' + ('nn' if case['fitter'] == 'regress_nn' else
+                                      'ols' if case['fitter'] == 'regress' else 'other'))
+    elif st['degenerate']:
+        br.append('gram:ill-conditioned')
+    if case['fitter'] == 'select' and fam in ('zero', 'const') and case['sigma'] is not None and \
+            st['rank_deficient']:
+        br.append('select:undefined_candidate')
+    if case['fitter'] == 'regress_nn' and st['maxdrop'] >= 2:
+        br.append('nn:multi_drop')
+    if case['fitter'] == 'regress_nn' and st['maxdrop'] == 1:
+        br.append('nn:single_drop')
+    return {'kind': kind, 'fitter': case['fitter'], 'method': case['method'], 'family': fam,
+            'rank_deficient': st['rank_deficient'], 'maxdrop': st['maxdrop'],
             'sigma': sigma_kind(case['sigma']), 'sel': sel, 'by': case['by'], 'n': case['n'],
             'k': len(case['basis']), 'n_data': len(case['data']), 'scale': case.get('scale', 1),
             'normalize': bool(case['normalize']), 'dstyle': case.get('dstyle'),
@@ -1009,6 +1368,11 @@ def _oracle_fit(case):
     basis, data = _rows(case['basis']), _rows(case['data'])
     cached = run_impl(case)          # the same real call (memoised per case content)
     th, lib_sc = cached['theta'], cached['lib_score']
+    if case.get('bad_method'):
+        if isinstance(th, dict) and th['exc'] == 'ValueError':
+            return None
+        return _fail(f'{f} accepts the criterion {case["bad_method"]} it cannot optimise', th, 'ValueError',
+                     claim='method', fitter=f)
     pr = _problem(case)
     feats = dict(fitter=f, method=case['method'], sigma=sigma_kind(case['sigma']),
                  multi_data=len(case['data']) > 1)
@@ -1028,9 +1392,15 @@ def _oracle_fit(case):
                      lib_sc, s, claim='score_definition', **feats)
     rng = random.Random(case['cseed'])
     slack = 1e-6
+    judged = True
     if f in ('regress', 'optimize'):
-        _, best = pr.best_free()
+        bth, best = pr.best_free()
         comp = orc.competitors(rng, tv, k, False)
+        if f == 'optimize':
+            # BFGS (a contract) starts in the positive orthant; it is observed only where the optimum lies
+            # there too - elsewhere it is known to run off along the scale direction and stop anywhere
+            nb = float(np.linalg.norm(bth))
+            judged = nb > 0 and float(np.min(bth / nb)) >= -1e-3
     elif f in ('regress_nn', 'optimize_positive'):
         _, best = pr.best_nonneg()
         comp = orc.competitors(rng, tv, k, True)
@@ -1038,11 +1408,17 @@ def _oracle_fit(case):
             return _fail(f'{f} returns a negative weight', th, 'theta >= 0', claim='constraint', **feats)
     elif f == 'select':
         ev = pr.best_single()
-        best = max(ev)
-        comp = [np.eye(k)[i] for i in range(k)]
         if not (isinstance(th, int) and 0 <= th < k):
             return _fail('fit_select does not return a candidate index', th, f'0..{k - 1}',
                          claim='constraint', **feats)
+        # a candidate whose similarity is undefined (0/0) may count as 0 or be passed over: the
+        # returned candidate has to be at least as good as every candidate with a defined similarity
+        dfn = [pr.defined(np.eye(k)[i]) for i in range(k)]
+        cand = [i for i in range(k) if dfn[i]]
+        best = max([ev[i] for i in cand], default=0.0)
+        if not dfn[th]:
+            best = max(best, 0.0) if cand else 0.0
+        comp = [np.eye(k)[i] for i in cand]
     else:
         best, _, _ = pr.best_mixture()
         comp = [pr.mix(i, w) for i in range(k - 1) for w in np.linspace(0, 1, 41)]
@@ -1053,15 +1429,33 @@ def _oracle_fit(case):
         slack = 2e-5
     if f.startswith('optimize'):
         slack = _opt_slack(case)
-    if s < best - slack:
+        if best <= 0 and not pr.defined(_theta_vec(case, best_th := (pr.best_nonneg()[0] if f == 'optimize_positive'
+                                                                     else pr.best_free()[0]))):
+            # no direction is positively related to the data: the optimum of the guarded criterion is the
+            # zero prediction, whose similarity is 0/0 - the optimisers are not judged there (observation
+            # in the notes: BFGS may then stop anywhere)
+            return None
+    if judged and s < best - slack:
         return _fail(f'{f}: the returned parameters do not attain the maximal mean {case["method"]} '
                      f'similarity (gap {best - s:.3g})', s, best, claim='optimal', gap=best - s, **feats)
     for c in comp:
         sc = pr.score(c)
-        if sc > s + slack:
+        if judged and sc > s + slack:
             return _fail(f'{f}: a competitor scores higher than the fit (gap {sc - s:.3g})',
                          {'theta': th, 'score': s}, {'theta': [float(x) for x in c], 'score': sc},
                          claim='optimal', gap=sc - s, **feats)
+    if f in ('select', 'interpolate') and not case.get('malformed'):
+        # every public route to the fit: Model.fit (default fitter of the class) must do as well
+        tv, _ = _call_fit(case, basis, data, via_fit=True)
+        if isinstance(tv, dict):
+            return _fail(f'Model.fit of a {f} model does not return parameters ({tv["exc"]})', tv,
+                         'a parameter vector', claim='returns', exc=tv['exc'], route='Model.fit', **feats)
+        ok = (isinstance(tv, int) and 0 <= tv < k) if f == 'select' else (isinstance(tv, list) and len(tv) == k)
+        sv = pr.score(_theta_vec(case, tv)) if ok else float('-inf')
+        if sv < best - slack:
+            return _fail(f'Model.fit of a {f} model returns parameters below the maximum '
+                         f'(gap {best - sv:.3g})', {'theta': tv, 'score': sv}, best, claim='optimal',
+                         route='Model.fit', **feats)
     if f in ('regress', 'regress_nn', 'optimize', 'optimize_positive') and case['normalize']:
         nrm = math.sqrt(sum(t * t for t in th))
         if any(th) and abs(nrm - 1) > 1e-9:
